@@ -108,7 +108,8 @@ def c09(tier):
                                 "closure classes unusable: %s" % sp["infer"][:3])
     res.extra["cover_sizes"] = {k: len(v) for k, v in covers.items()}
     if tier == "quick":
-        decls = family_F("i8", 2, 2, 2) + family_F("i64", 2, 1, 2) + family_F("u16", 1, 2, 1) + enums.family_L("i8") + enums.family_M("i8", 2)
+        decls = (family_F("i8", 2, 2, 2) + family_F("i64", 2, 1, 2) + family_F("u16", 1, 2, 1) + enums.family_L("i8") + enums.family_M("i8", 2)
+                 + enums.family_D("i8", 6, "zero", min_n=4))
         bounds = dict(x1_depth=2, x2_extra=1, x2_cap=5, range_x1_depth=1, range_x2_extra=1)
         kmax = 2
     else:
@@ -119,6 +120,8 @@ def c09(tier):
             decls += family_F(r, 3, 3, 3)
         for r in ("u8", "i16", "u64"):
             decls += enums.family_L(r)
+        for r in ("i8", "u16", "i64"):
+            decls += enums.family_D(r, 7, "zero")
         bounds = dict(x1_depth=2, x2_extra=2, x2_cap=7, range_x1_depth=2, range_x2_extra=1)
         kmax = 3
     subs = []
@@ -312,7 +315,7 @@ def c10(tier):
             res.nontrivial.add(cfg.key())
     # T1 (e): every legal configuration with <= k features built AND run (each item satisfies its own guarantee)
     subs = []
-    bounds = dict(x1_depth=2, x2_extra=1, x2_cap=5, range_x1_depth=1, range_x2_extra=1)
+    bounds = dict(x1_depth=2, x2_extra=1, x2_cap=5, range_x1_depth=1, range_x2_extra=1, consumers=False)
     for i, ((r, g), vals) in enumerate(sorted(BASE_ENUMS.items())):
         d = make_decl(r, vals, salt=i)
         for j, cfg in enumerate(catalogue.small_configs(kmax, g, explicit_auto=True)):
